@@ -27,7 +27,9 @@ They are defined by structural recursion on a fuel argument; `parseFile` supplie
 `Props/C06.lean` (`C06_fuel_suffices`) proves that the `nofuel` result is unreachable — i.e. the recursive descent
 terminates on every input because each recursive call is preceded by a token read that consumed at least one symbol.
 
-Parameters (`Env`): `unicode.IsLetter`, `regexp.Compile` succeeds, `strconv.ParseFloat`.
+Parameters (`Env`): `unicode.IsLetter`, `regexp.Compile` succeeds, `strconv.ParseFloat`, and — used by the type fragment
+only (`Model/Types.lean`: the bounds of `Float[lo, hi]`) — the program-format text of a float (`floatGFormat`, i.e.
+`fmt.Sprintf("%g")` post-processed), as a function of its IEEE-754 bits.
 -/
 namespace Pcore.Syntax
 
@@ -35,6 +37,7 @@ structure Env where
   isLetter : Char → Bool
   rxOK : Str → Bool
   pf : Str → Option Nat
+  ff : Nat → Str := fun _ => []
 
 inductive NKind where
   | alias | object | typeset
